@@ -288,6 +288,7 @@ func equalInts(a, b []int) bool {
 type WTree struct {
 	Kw   []int   `json:"kw"`
 	Arg  []int   `json:"arg"`
+	ArgJ *bool   `json:"argJ,omitempty"` // spec side: the argument is judged (absent = judged)
 	Line int     `json:"line"`
 	Col  int     `json:"col"`
 	ColJ bool    `json:"colJ"` // spec side: the column is judged (ASCII line prefix)
@@ -333,7 +334,7 @@ func diffTree(want, got *WTree, path string) map[string]interface{} {
 	if !equalInts(want.Kw, got.Kw) {
 		return d("keyword", FromCPs(want.Kw), FromCPs(got.Kw))
 	}
-	if !equalInts(want.Arg, got.Arg) {
+	if (want.ArgJ == nil || *want.ArgJ) && !equalInts(want.Arg, got.Arg) {
 		return d("argument", want.Arg, got.Arg)
 	}
 	if want.Line != got.Line {
